@@ -49,6 +49,7 @@ type vOrd struct {
 	held       int
 	process    int64
 	busyHeld   bool
+	holding    bool // a goroutine is being held at core.process.end right now
 	realTiming int32
 }
 
@@ -56,6 +57,28 @@ func vNewOrd() *vOrd {
 	o := &vOrd{seen: map[string]int{}}
 	o.cond = sync.NewCond(&o.mu)
 	return o
+}
+
+// saw reports whether the point has been passed since the last set.
+func (o *vOrd) saw(name string) bool {
+	o.mu.Lock()
+	defer o.mu.Unlock()
+	return o.seen[name] > 0
+}
+
+// isHolding reports whether the core loop is being held at core.process.end right now.
+func (o *vOrd) isHolding() bool {
+	o.mu.Lock()
+	defer o.mu.Unlock()
+	return o.holding
+}
+
+// mark lets the harness pass a pseudo point (to release a held goroutine).
+func (o *vOrd) mark(name string) {
+	o.mu.Lock()
+	o.seen[name]++
+	o.cond.Broadcast()
+	o.mu.Unlock()
 }
 
 func (o *vOrd) set(holdAt, until string) {
@@ -78,11 +101,17 @@ func (o *vOrd) handlers() *verifHandlers {
 				if o.holdAt == name && o.until != "" && o.seen[o.until] == 0 && !o.busyHeld {
 					o.busyHeld = true
 					o.held++
-					t := time.AfterFunc(150*time.Millisecond, func() { o.mu.Lock(); o.cond.Broadcast(); o.mu.Unlock() })
-					deadline := time.Now().Add(150 * time.Millisecond)
+					limit := 150 * time.Millisecond
+					if o.until == "harness.release" {
+						limit = 5 * time.Second // released by the harness itself
+					}
+					t := time.AfterFunc(limit, func() { o.mu.Lock(); o.cond.Broadcast(); o.mu.Unlock() })
+					deadline := time.Now().Add(limit)
+					o.holding = true
 					for o.seen[o.until] == 0 && time.Now().Before(deadline) {
 						o.cond.Wait()
 					}
+					o.holding = false
 					t.Stop()
 				}
 				o.mu.Unlock()
@@ -775,6 +804,40 @@ func vRunLife(c *vCase) {
 					x.fail("c10:second-start-changed-state", "a refused Start left the state %v", st)
 				}
 				c.Cov("start_while_active", 1)
+				if !x.dead && vChance(r, 0.6) {
+					// Start while a Stop is under way (state Stopping): the core loop is kept from noticing the abort until the
+					// Start has been answered; it must be refused and change nothing, and the Stop must then complete
+					ord.set("core.process.end", "harness.release")
+					time.Sleep(time.Duration(6+r.Intn(10)) * time.Millisecond)
+					stopDone := make(chan error, 1)
+					go func() { stopDone <- l.ds.Stop() }()
+					for i := 0; i < 2000 && !ord.saw("stop.signalled"); i++ {
+						time.Sleep(100 * time.Microsecond)
+					}
+					if ord.saw("stop.signalled") && ord.isHolding() && l.ds.GetState() == Stopping {
+						var err2 error
+						vWatched(c, "Start", 20*time.Second, func() { err2 = Start(l.ds, x.queued, 4, 16) })
+						if err2 == nil && !ord.isHolding() {
+							c.Cov("start_while_stopping_undecided", 1) // the hold ran out: the source may have become inactive before the Start
+						} else if err2 == nil {
+							x.fail("c10:start-while-stopping-accepted", "Start on a source whose Stop is still waiting for the core loop (state Stopping) returned no error")
+						}
+						c.Cov("start_while_stopping", 1)
+					}
+					ord.mark("harness.release")
+					select {
+					case <-stopDone:
+						c.Cov("stops_returned", 1)
+					case <-time.After(20 * time.Second):
+						if !x.dead {
+							x.fail("c10:stop-hangs-after-refused-start", "the Stop that was under way when Start was refused has not returned 20 s after the core loop was released (trace %v)", ord.trace)
+						}
+					}
+					ord.set("", "")
+					x.running = false
+					x.afterStop()
+					break
+				}
 				x.stop(1)
 				x.afterStop()
 			}
